@@ -146,4 +146,36 @@ theorem stabRun_refines (c : Circuit) (hgood : c.Good) (har : ArityOk c) (seq : 
   rw [hnew]
   exact ⟨ht', hrun⟩
 
+/-- boolean witness that a row is a stabilizer generator of the tableau (up to equality on the qubits' sites) -/
+def rowCheck (t : Tab) (P : PRow) : Bool := (List.range t.n).any fun i => PRow.beqOn t.n (t.row (i + t.n)) P
+
+theorem grp_of_rowCheck (t : Tab) (P : PRow) (h : rowCheck t P = true) : Grp t P := by
+  unfold rowCheck at h
+  rw [List.any_eq_true] at h
+  obtain ⟨i, hi, hb⟩ := h
+  exact Tab.InSpan.eqv _ _ (grp_gen t i (List.mem_range.mp hi)) (eqOn_check _ _ _ hb)
+
+/-- boolean witness that a row is in the stabilizer group: it is a product of a sublist of the generators -/
+def grpCheck (t : Tab) (P : PRow) : Bool :=
+  (List.range (2 ^ t.n)).any fun m =>
+    PRow.beqOn t.n (((List.range t.n).filter fun i => m.testBit i).foldl
+      (fun acc i => PRow.mul t.n (t.row (i + t.n)) acc) PRow.one) P
+
+theorem grp_foldl (t : Tab) (S : List Nat) (hS : ∀ i, i ∈ S → i < t.n) (acc : PRow) (hacc : Grp t acc) :
+    Grp t (S.foldl (fun acc i => PRow.mul t.n (t.row (i + t.n)) acc) acc) := by
+  induction S generalizing acc with
+  | nil => exact hacc
+  | cons i S ih =>
+    rw [List.foldl_cons]
+    exact ih (fun j hj => hS j (List.mem_cons_of_mem _ hj)) _
+      (Tab.InSpan.mul _ _ (grp_gen t i (hS i List.mem_cons_self)) hacc)
+
+theorem grp_of_grpCheck (t : Tab) (P : PRow) (h : grpCheck t P = true) : Grp t P := by
+  unfold grpCheck at h
+  rw [List.any_eq_true] at h
+  obtain ⟨m, _, hb⟩ := h
+  have hsub : ∀ i, i ∈ (List.range t.n).filter (fun i => m.testBit i) → i < t.n := fun i hi =>
+    List.mem_range.mp (List.mem_filter.mp hi).1
+  exact Tab.InSpan.eqv _ _ (grp_foldl t _ hsub PRow.one Tab.InSpan.one) (eqOn_check _ _ _ hb)
+
 end Graphiq.Commute
